@@ -32,6 +32,9 @@ pub fn runtime() -> tokio::runtime::Runtime {
     tokio::runtime::Builder::new_current_thread()
         .enable_all()
         .start_paused(true)
+        // the future given to block_on is otherwise polled only once per 61 task polls: operations awaited in it
+        // would never interleave with the chains of wake-ups between spawned tasks
+        .event_interval(1)
         .build()
         .expect("runtime")
 }
